@@ -12,6 +12,9 @@ From EG Require Model.Geometry Model.Target.   (* qualified: Rectangle::points, 
 
 Record fbcfg := FbCfg { fb_t : rawty; fb_alt : order; fb_w : Z; fb_h : Z }.
 
+Section WithUsize.
+Context {U : Usize}.   (* the target's usize, see Model/Rawdata.v *)
+
 (* framebuffer.rs:32-34  buffer_size_bpp = (width * bpp + 7) / 8 * height *)
 Definition buffer_size_bpp (width height bpp : Z) : Z := (width * bpp + 7) / 8 * height.
 (* framebuffer.rs:78  BUFFER_SIZE *)
@@ -151,3 +154,5 @@ Definition fb_pixel (c : fbcfg) (data : list Z) (p : Z * Z) : pixres :=
   | Some im => Pix (image_pixel im p)
   | None => Panic
   end.
+
+End WithUsize.
